@@ -180,7 +180,15 @@ class World:
         dev = deref(args[0])
         rec = dev.f[0]
         decl = s.devices[dev.ty]['cmds'][k]
-        rec.events.append(('call', k, [a for a in args[1:]]))
+        # arguments are recorded by value at the time of the call (borrowed buffers may be reused afterwards)
+        snap = []
+        for a in args[1:]:
+            v = deref(a)
+            if isinstance(v, Slice):
+                items = list(v.items())
+                v = Slice(items, 0, len(items), v.is_str)
+            snap.append(v)
+        rec.events.append(('call', k, snap))
         idx = rec.calls
         rec.calls += 1
         sc = rec.script.get(idx)
@@ -310,8 +318,10 @@ def n_pass_write(ex, callee, a, env):
         w.ops.append(('b' if m == 'write_bytes' else 's', sl.len))
     elif m == 'write_char':
         c = a[1]
-        if isinstance(c, int) and c >= 128:
+        if isinstance(c, int):
             w.items.append(c & 0xFF)     # `c as u8`, as the shipped writers do
+        elif z3.is_bv(c) and c.size() > 8:
+            w.items.append(z3.simplify(z3.Extract(7, 0, c)))
         else:
             w.items.append(c)
         w.ops.append(('c',))
